@@ -77,6 +77,7 @@ def mulOp (op : String) (l r : Val) : OpRes :=
     match l, r with
     | .str s, .int n =>
       if n.slt 0 then .err "negative repeat count"
+      else if s.length = 0 then .ok (.str [])         -- strings.Repeat("", n) for any n (never unrolled)
       else if s.length * n.toNat > repeatBound then .unsupported
       else .ok (.str (repeatBytes s n.toNat))
     | _, _ =>
